@@ -156,7 +156,15 @@ func (in *Interp) runPkgInit(pkg *ssa.Package) {
 	in.lenient++
 	savedInit := in.initPkg
 	in.initPkg = pkg
-	defer func() { in.lenient--; in.initPkg = savedInit }()
+	// package initialisation is path independent: it must not be recorded in
+	// (and rolled back with) the write log of a speculated arm
+	savedLogs, savedGuards, savedNoFork, savedLimit := in.specLogs, in.specGuards, in.E.NoFork, in.specStepLimit
+	in.specLogs, in.specGuards, in.E.NoFork, in.specStepLimit = nil, nil, 0, 0
+	defer func() {
+		in.lenient--
+		in.initPkg = savedInit
+		in.specLogs, in.specGuards, in.E.NoFork, in.specStepLimit = savedLogs, savedGuards, savedNoFork, savedLimit
+	}()
 	defer func() {
 		if r := recover(); r != nil {
 			switch x := r.(type) {
